@@ -85,6 +85,8 @@ type scenC07 struct {
 	retryT  [maxCallsC07]int  // request.RetryTime at the time of the call
 	fwdFin  bool              // a forward filter returned BfeHandlerFinish
 	fwdSeen int
+	finSeen int  // calls of the request-finish filter
+	finFin  bool // the request-finish filter returned BfeHandlerFinish
 }
 
 func (s *scenC07) indexOfC07(b *backend.BfeBackend) int {
@@ -370,6 +372,82 @@ func VerifC07_connnum() {
 	if cur >= 0 {
 		c := s.bks[cur].ConnNum()
 		vrt.Known("C07-forward-finish-decrements-uncounted-backend", s.fwdFin && c == -1)
+		vrt.Assert(c >= 0, "C07/never-negative-after-finish")
+		vrt.Assert(c == 0, "C07/zero-after-finish")
+	}
+}
+
+// requestFinishFilterC07 registers a HandleRequestFinish callback (the callback point of FinishReq)
+// whose verdict is chosen per call.
+func (s *scenC07) requestFinishFilterC07() {
+	err := s.srv.CallBacks.AddFilter(bfe_module.HandleRequestFinish, func(req *bfe_basic.Request, res *bfe_http.Response) int {
+		s.finSeen++
+		vrt.Cover("C07/request-finish-filter-ran")
+		if vrt.Choose("request-finish-verdict", 2) == 1 {
+			s.finFin = true
+			return bfe_module.BfeHandlerFinish
+		}
+		return bfe_module.BfeHandlerGoOn
+	})
+	vrt.Assume(err == nil)
+}
+
+// VerifC07_finish: the end of the request's life (narrow: two sub-clusters of one available backend,
+// weights (1,1), fault kinds {ok, connect error}, RetryMax/CrossRetry <= 1). Two things the big
+// harness does not vary:
+//   - a HandleRequestFinish filter runs inside FinishReq and its verdict {GoOn, Finish} is chosen (module
+//     verdicts of the request-finish phase);
+//   - while the response is being copied to the client (between clusterInvoke and FinishReq) the
+//     assigned backend may be taken out of rotation by failing attempts of other requests (OnFail x
+//     FailNum, the real UpdateStatus path) and may then be brought back by its health checker (the two
+//     statements check() executes on recovery: SetRestart(true); SetAvail(true)).
+// Oracle as VerifC07_connnum: in flight the assigned backend counts 1 and every other 0, after FinishReq
+// every backend counts 0, never negative.
+func VerifC07_finish() {
+	s := buildC07(1, 1, false, false, true)
+	s.kinds, s.kindsRest = vrt.Param("K", 2), vrt.Param("K", 2)
+	if vrt.Param("FWD", 0) == 1 {
+		s.forwardFilterC07()
+	}
+	s.requestFinishFilterC07()
+	s.requestC07("GET", 0)
+
+	_, _, _ = s.p.clusterInvoke(s.srv, s.cluster, s.req, nil)
+
+	cur := s.indexOfC07(s.req.Trans.Backend)
+	if cur >= 0 {
+		b := s.bks[cur]
+		if flap := vrt.Choose("health-flap", 3); flap >= 1 {
+			for k := 0; k < 3 && b.Avail(); k++ { // FailNum is 3 here
+				b.OnFail("c")
+			}
+			if !b.Avail() {
+				vrt.Cover("C07/taken-out-while-request-in-flight")
+			}
+			if flap == 2 {
+				b.SetRestart(true)
+				b.SetAvail(true)
+				vrt.Cover("C07/revived-while-request-in-flight")
+			}
+		}
+	}
+	for j := range s.bks {
+		c := s.bks[j].ConnNum()
+		vrt.Assert(c >= 0, "C07/never-negative")
+		if j == cur {
+			vrt.Assert(c == 1, "C07/in-flight-backend-counts-request")
+		} else {
+			vrt.Assert(c == 0, "C07/other-backends-count-nothing")
+		}
+	}
+
+	s.p.FinishReq(nil, s.req)
+
+	if s.finFin && cur >= 0 {
+		vrt.Cover("C07/request-finish-verdict-finish-with-backend")
+	}
+	for j := range s.bks {
+		c := s.bks[j].ConnNum()
 		vrt.Assert(c >= 0, "C07/never-negative-after-finish")
 		vrt.Assert(c == 0, "C07/zero-after-finish")
 	}
